@@ -175,8 +175,14 @@ Proof. glist. Qed.
    analysis on the innermost scrutinee; leaves are closed by reflexivity, arithmetic contradiction or
    the induction hypothesis ---- *)
 Ltac lnorm := cbv [bind option_map cs_contains cs_is_before]; cbn [fst snd conv CharSet_start CharSet_end].
+Ltac Zify.zify_post_hook ::= Z.div_mod_to_equations.
 Ltac lstep :=
   match goal with
+  | |- context [nth_error ?l ?a] =>
+      match goal with
+      | |- context [nth_error l ?b] =>
+          tryif constr_eq a b then fail else (replace a with b by lia)
+      end
   | |- context [M_CharSet_contains ?s ?x] => rewrite (link_cs_contains s x)
   | |- context [M_CharSet_is_before ?s ?x] => rewrite (link_cs_is_before s x)
   | |- context [nth_error (map conv ?l) ?i] => rewrite (nth_error_map_conv l i)
@@ -313,16 +319,16 @@ Proof.
   exists r. split; [reflexivity|]. cbn [option_map] in H. congruence.
 Qed.
 
-Definition merge_res (r : option (loopres CharPartition (CharPartition * (nat * N * N) * (nat * N * N)))) : option part :=
+Definition merge_res (r : option (loopres CharPartition ((nat * N * N) * (nat * N * N) * CharPartition))) : option part :=
   match r with
   | Some (LoopReturn q) => Some (convp q)
-  | Some (LoopDone (q, _, _)) => Some (convp q)
+  | Some (LoopDone (_, _, q)) => Some (convp q)
   | None => None
   end.
 
 Lemma link_merge_loop fuel p1 p2 : bounded p1 -> bounded p2 ->
   forall res i a b j c d, a <= SENT -> b <= SENT -> c <= SENT -> d <= SENT ->
-  merge_res (fn_merge_partitions_loop1 fuel p1 p2 res (i, a, b) (j, c, d))
+  merge_res (fn_merge_partitions_loop1 fuel p1 p2 (i, a, b) (j, c, d) res)
   = merge_loop fuel (convp p1) (convp p2) i a b j c d (convp res).
 Proof.
   intros B1 B2. induction fuel as [|fuel IH]; intros res i a b j c d Ha Hb Hc Hd; [reflexivity|].
@@ -380,7 +386,7 @@ Proof.
   change M_CharPartition_new with (Some CharPartition_new). unfold bind at 1.
   pose proof (pget_bounded p1 0 B1) as [G1a G1b]. pose proof (pget_bounded p2 0 B2) as [G2a G2b].
   destruct (pget (convp p1) 0) as [a b] eqn:E1. destruct (pget (convp p2) 0) as [c d] eqn:E2. cbn [fst snd] in *.
-  rewrite <- (link_merge_loop _ p1 p2 B1 B2 CharPartition_new 1 a b 1 c d) by assumption.
+  rewrite <- (link_merge_loop _ p1 p2 B1 B2 CharPartition_new 1%nat a b 1%nat c d) by assumption.
   unfold bind.
-  destruct (fn_merge_partitions_loop1 _ p1 p2 CharPartition_new (1%nat, a, b) (1%nat, c, d)) as [[q|[[q t1] t2]]|]; reflexivity.
+  destruct (fn_merge_partitions_loop1 _ p1 p2 (1%nat, a, b) (1%nat, c, d) CharPartition_new) as [[q|[[t1 t2] q]]|]; reflexivity.
 Qed.
